@@ -6,7 +6,32 @@
     returns the value of its body; [a .. b] excludes and [a ..= b] includes the end, in the
     direction of the step; [x ? d] is [d] exactly when [x] is undefined ([None]);
     [handle] runs the first arm whose class the raised exception is an instance of.
-    Conditions must be booleans.  Anything else evaluates to [unsupported]. *)
+    Conditions must be booleans.  Anything else evaluates to [unsupported].
+
+    Classes.  The documentation describes classes only through examples (README, "Types, Classes,
+    and Mutability": [class MyServer(def ip_address: IPv4Address)] with body fields
+    [def is_connected: Bool := False], methods taking [self], updates [self.is_connected := True];
+    [class ServerError(def message: Str): Exception(message)]) and the comment of
+    [generate/convert/class.rs] ("Assignments from class args not given to parent").  The meaning
+    ASSUMED here as the documented one:
+    - [C(v1, .., vn)] creates a new object; the constructor arguments are bound to the values;
+      every parent [P(e1, .., ek)] named after the colon is constructed ON THE SAME OBJECT with the
+      values of its argument expressions; then the fields defined in the body get their initial
+      values, and EVERY CONSTRUCTOR ARGUMENT THAT IS NOT PASSED ON TO A PARENT CONSTRUCTOR BECOMES A
+      FIELD of the new object (arguments passed to a parent are the parent's business: it makes
+      them fields, under its own names, or passes them further up);
+    - the arguments given to the builtin [Exception] (or another builtin exception class) are the
+      message: what [print(err)] shows;
+    - [o.x] reads a field, [o.x := v] updates an existing field, [o.m(..)] runs the method found in
+      the class of [o] or, failing that, in its parents (left to right, depth first) with [self = o];
+    - a raised object is handled by the first arm whose class is the object's class or one of its
+      ancestors.
+    Not given a meaning (the run is [unsupported]): a field initialised twice (same name in a class
+    and an ancestor), a field read or updated that the object does not have (e.g. an argument that
+    was passed on to a parent under another name), constructor arguments without [def] that are not
+    passed on, parent arguments other than an argument's name or a constant, body fields with a
+    non-constant initialiser (when they are evaluated is not documented), an explicit [__init__]
+    and other [__x__] methods, methods without [self], generics, printing a plain object. *)
 From Coq Require Import List String Bool ZArith.
 From MambaModel Require Import model.Core model.SemDom model.Convert model.PyEval.
 Import ListNotations.
@@ -41,6 +66,15 @@ Definition nodeop_sop (o : nodeop) : option sop :=
 Definition range_end (b s : Z) (incl : bool) : Z :=
   if incl then (if Z.ltb 0 s then Z.add b 1 else Z.sub b 1) else b.
 
+(** the names of a field path [a.b.c] *)
+Fixpoint mpath (a : ast) : option (list string) :=
+  match a with
+  | A _ (NId x) => Some [x]
+  | A _ (NProp i p) =>
+      match mpath i, mpath p with Some a, Some b => Some (a ++ b)%list | _, _ => None end
+  | _ => None
+  end.
+
 Fixpoint massign (t : ast) (v : value) (e : menv) {struct t} : menv :=
   let fix each (ts : list ast) (vs : list value) (e : menv) {struct ts} : menv :=
     match ts, vs with
@@ -52,6 +86,7 @@ Fixpoint massign (t : ast) (v : value) (e : menv) {struct t} : menv :=
   | A _ (NId x) => set_var x v e
   | A _ (NExprType t' _) => massign t' v e
   | A _ (NTuple ts) => match v with VTuple vs | VList vs => each ts vs e | _ => poison e end
+  | A _ (NProp _ _) => match mpath t with Some p => assign_attr true p v e | None => poison e end
   | _ => poison e
   end.
 
@@ -81,6 +116,169 @@ Definition mpattern (p : ast) (w : value) (e : menv) : option (option menv) :=
   | NBool b => lit (VBool b)
   | NUndefined => lit VNone
   | _ => None
+  end.
+
+(** ** Classes *)
+Definition mconst (a : ast) : option value :=
+  match a with
+  | A _ (NInt s) => match z_of_string s with Some z => Some (VInt z) | None => None end
+  | A _ (NBool b) => Some (VBool b)
+  | A _ (NStr s false) => if plain_text s then Some (VStr s) else None
+  | A _ NUndefined => Some VNone
+  | A _ (NUn SSubU (A _ (NInt s))) => match z_of_string s with Some z => Some (VInt (- z)) | None => None end
+  | _ => None
+  end.
+
+(** a constructor argument: its name, and whether it is declared with [def] *)
+Definition cparam (a : ast) : option (string * bool) :=
+  match a with
+  | A _ (NVarDef (A _ (NId x)) _ None) => Some (x, true)
+  | A _ (NFunArg false (A _ (NId x)) _ None) => Some (x, false)
+  | _ => None
+  end.
+Fixpoint cparams_of (l : list ast) : option (list (string * bool)) :=
+  match l with
+  | [] => Some []
+  | a :: r => match cparam a, cparams_of r with Some x, Some xs => Some (x :: xs) | _, _ => None end
+  end.
+
+Definition mparent (a : ast) : option (string * list ast) :=
+  match a with A _ (NParent name [] args) => Some (name, args) | _ => None end.
+Fixpoint mparents (l : list ast) : option (list (string * list ast)) :=
+  match l with
+  | [] => Some []
+  | a :: r => match mparent a, mparents r with Some x, Some xs => Some (x :: xs) | _, _ => None end
+  end.
+
+Definition parent_arg_ok (params : list string) (a : ast) : bool :=
+  match a with
+  | A _ (NId p) => existsb (String.eqb p) params
+  | _ => is_some (mconst a)
+  end.
+Definition passed_on (p : string) (parents : list (string * list ast)) : bool :=
+  existsb (fun pa => existsb (fun a => match a with A _ (NId q) => String.eqb p q | _ => false end) (snd pa)) parents.
+
+Definition field_name (var : ast) : option string :=
+  match var with
+  | A _ (NId x) => Some x
+  | A _ (NExprType (A _ (NId x)) _) => Some x
+  | _ => None
+  end.
+
+Fixpoint mclass_body (l : list ast) (fields : store) (ms : list (string * fundef ast))
+  : option (store * list (string * fundef ast)) :=
+  match l with
+  | [] => Some (fields, ms)
+  | st :: r =>
+      match st with
+      | A _ (NVarDef var _ (Some x)) =>
+          match field_name var, mconst x with
+          | Some n, Some v =>
+              if dunder_name n || is_some (sget n fields) then None else mclass_body r (sset n v fields) ms
+          | _, _ => None
+          end
+      | A _ (NFunDef (A _ (NId m)) args ret (Some body)) =>
+          if dunder_name m || is_some (find_fun m ms) then None
+          else match mparams args with
+               | Some ("self" :: ps) =>
+                   mclass_body r fields
+                     ((m, {| fparams := "self" :: ps; fbody := body;
+                             fvalret := match ret with Some _ => true | None => false end |}) :: ms)
+               | _ => None
+               end
+      | A _ (NDocStr _) | A _ NPass => mclass_body r fields ms
+      | _ => None
+      end
+  end.
+
+Definition mclass (name : string) (args parents : list ast) (body : option ast) (e : menv) : menv :=
+  let stmts := match body with
+               | Some (A _ (NBlock l)) => l
+               | Some other => [other]
+               | None => []
+               end in
+  match cparams_of args, mparents parents, mclass_body stmts [] [] with
+  | Some ps, Some pars, Some (fields, ms) =>
+      let names := map fst ps in
+      if is_builtin_exception name || is_some (find_fun name (funs e)) || is_some (find_class name (classes e))
+         || negb (no_dup names)
+         || negb (forallb (fun pa => forallb (parent_arg_ok names) (snd pa)) pars)
+         || negb (forallb (fun p => snd p || passed_on (fst p) pars) ps)
+         || existsb (fun n => is_some (find_fun n ms)) (map fst fields)
+      then poison e
+      else match new_mro name (map fst pars) (classes e) with
+           | Some mro => add_class name {| cparams := names; cparents := pars; cattrs := fields;
+                                           cmethods := ms; cmro := mro |} e
+           | None => poison e
+           end
+  | _, _, _ => poison e
+  end.
+
+Definition parent_arg_value (fr : store) (a : ast) : option value :=
+  match a with A _ (NId p) => sget p fr | _ => mconst a end.
+Fixpoint parent_arg_values (fr : store) (l : list ast) : option (list value) :=
+  match l with
+  | [] => Some []
+  | a :: r => match parent_arg_value fr a, parent_arg_values fr r with
+              | Some v, Some vs => Some (v :: vs)
+              | _, _ => None
+              end
+  end.
+(** every field is initialised once *)
+Fixpoint init_fields (a : nat) (l : store) (e : menv) : option menv :=
+  match l with
+  | [] => Some e
+  | (x, v) :: r => match field_of a x e with
+                   | Some _ => None
+                   | None => init_fields a r (set_field a x v e)
+                   end
+  end.
+
+(** construction of the part of the object at [a] that class [cls] describes; [n] bounds the
+    height of the class hierarchy (parents are defined before their children) *)
+Fixpoint construct (n : nat) (cls : string) (vs : list value) (a : nat) (e : menv) {struct n} : option menv :=
+  match n with
+  | O => None
+  | S n' =>
+      match find_class cls (classes e) with
+      | None => None
+      | Some cd =>
+          match bind_params (cparams cd) vs [] with
+          | None => None
+          | Some fr =>
+              let fix up (ps : list (string * list ast)) (e : menv) {struct ps} : option menv :=
+                match ps with
+                | [] => Some e
+                | (pn, pargs) :: r =>
+                    match parent_arg_values fr pargs with
+                    | None => None
+                    | Some pvs =>
+                        match (if is_some (find_class pn (classes e)) then construct n' pn pvs a e
+                               else if is_builtin_exception pn then Some (set_args a pvs e) else None) with
+                        | Some e1 => up r e1
+                        | None => None
+                        end
+                    end
+                end in
+              match up (cparents cd) e with
+              | None => None
+              | Some e1 =>
+                  match init_fields a (cattrs cd) e1 with
+                  | None => None
+                  | Some e2 =>
+                      init_fields a (filter (fun kv => negb (passed_on (fst kv) (cparents cd))) fr) e2
+                  end
+              end
+          end
+      end
+  end.
+
+Definition instantiate_m (name : string) (cd : classdef ast) (vs : list value) (e : menv) : option (value * menv) :=
+  let '(a, e1) := alloc {| ocls := name; ofields := [];
+                           oargs := if mro_is_exception (cmro cd) then Some [] else None |} e in
+  match construct (S (List.length (classes e1))) name vs a e1 with
+  | Some e2 => Some (VObj (cmro cd) a, e2)
+  | None => None
   end.
 
 Section Eval.
@@ -144,15 +342,18 @@ Section Eval.
     match l with
     | [] => None
     | A _ (NCase (A _ (NExprType id (Some cty))) body) :: r =>
-        match x, nm_class cty with
-        | VExc c _, Some n =>
-            if exc_isa c n then
-              Some (match id with
-                    | A _ NUnderscore => ev body e
-                    | _ => ev body (massign id x e)
-                    end)
-            else marms x e r
-        | _, _ => Some (munsup e)
+        match (match x, nm_class cty with
+               | VExc c _, Some n => Some (exc_isa c n)
+               | VObj mro _, Some n => Some (mro_isa mro n)
+               | _, _ => None
+               end) with
+        | Some true =>
+            Some (match id with
+                  | A _ NUnderscore => ev body e
+                  | _ => ev body (massign id x e)
+                  end)
+        | Some false => marms x e r
+        | None => Some (munsup e)
         end
     | _ :: r => Some (munsup e)
     end.
@@ -225,8 +426,34 @@ Section Eval.
         mvals args e (fun vs e1 =>
           match find_fun name (funs e1) with
           | Some d => mcall d vs e1
-          | None => match builtin name vs e1 with Some r => of_result r | None => munsup e1 end
+          | None =>
+              match find_class name (classes e1) with
+              | Some cd => match instantiate_m name cd vs e1 with
+                           | Some (o, e2) => MVal (Some o) e2
+                           | None => munsup e1
+                           end
+              | None => match builtin name vs e1 with Some r => of_result r | None => munsup e1 end
+              end
           end)
+    | NProp inst (A _ (NProp p q)) => ev (A None (NProp (A None (NProp inst p)) q)) e    (* [o.p.q] is [(o.p).q] *)
+    | NProp inst (A _ (NCall m [] args)) =>
+        mval inst e (fun o e1 =>
+          match o with
+          | VObj mro a =>
+              if dunder_name m then munsup e1
+              else match find_method m mro (classes e1) with
+                   | MUser d => mvals args e1 (fun vs e2 => mcall d (o :: vs) e2)
+                   | _ => munsup e1
+                   end
+          | _ => munsup e1
+          end)
+    | NProp inst (A _ (NId x)) =>
+        mval inst e (fun o e1 =>
+          match o with
+          | VObj _ a => match field_of a x e1 with Some v => MVal (Some v) e1 | None => munsup e1 end
+          | _ => munsup e1
+          end)
+    | NClass name [] args parents body => MVal None (mclass name args parents body e)
     | NVarDef var _ None => MVal None (massign var VNone e)
     | NVarDef var _ (Some x) =>
         match ev x e with
@@ -273,7 +500,12 @@ Section Eval.
     | NBreak => MBrk e
     | NContinue => MCont e
     | NPass => MVal None e
-    | NRaise x => mval x e (fun v e1 => match v with VExc _ _ => MExc v e1 | _ => munsup e1 end)
+    | NRaise x => mval x e (fun v e1 =>
+        match v with
+        | VExc _ _ => MExc v e1
+        | VObj mro _ => if mro_is_exception mro then MExc v e1 else munsup e1
+        | _ => munsup e1
+        end)
     | NHandle x arms =>
         let '(target, inner) :=
           match x with
@@ -320,6 +552,7 @@ Definition run_mamba_dev (dq di : bool) (f : nat) (a : ast) : list string * stat
     else match x with
          | VExc c _ => if String.eqb c unsupported then Unsupported
                        else if String.eqb c out_of_fuel then Fuel else Uncaught c
+         | VObj (c :: _) _ => Uncaught c
          | _ => Unsupported
          end in
   match mev_dev dq di f a env0 with
